@@ -1268,6 +1268,22 @@ def _run_case(sim, case, acc):
                     argv += ["-f", l]
                 run_one(sim, acc, prog, sc_tool(prog, argv, ref), "E15 %s filter lists of %s entries" % (prog, "+".join(str(l.count(",") + 1) for l in lists)), "many-arguments")
                 run_one(sim, acc, prog, sc_tool(prog, argv + ["+f", nums(0, 50)], ref), "E15 %s filter lists with removal" % prog, "many-arguments")
+        # arguments longer than the assembler's string buffers (255 characters), per option that takes one
+        for ln in (254, 255, 256, 257, 300, 1100, 5000):
+            big = "a" * ln
+            for opt in ("-o", "-olist", "-shareout", "-E", "-i", "-D", "-g", "-cpu", "-alias", "-t", "-listradix", "-splitbyte", "-maxerrors",
+                        "-maxinclevel", "+D", "+i", "-r", "-P", "-L"):
+                for val in (big, "/w/" + big, big + "=1", "=" + big, big + "," + big):
+                    if val is not big and opt not in ("-o", "-i", "-D", "-alias", "-E"):
+                        continue
+                    run_one(sim, acc, "asl", sc_asl("\tcpu z80\n\tnop\n", ["-L", opt, val], cpu=10), "E15 asl %s with an argument of %d characters" % (opt, len(val)), "long-argument")
+            run_one(sim, acc, "asl", dict(argv=["-q", "-L", big + ".asm"], cwd="/w", disk={"/w/" + big + ".asm": b"\tcpu z80\n\tnop\n"}, env={"LANG": "C"}, cpu=10),
+                    "E15 asl source name of %d characters" % ln, "long-argument")
+            for prog, tail in (("p2bin", ["f.p", "out.bin"]), ("p2hex", ["f.p", "out.hex"]), ("pbind", ["f.p", "out.p"]), ("plist", ["f.p"]), ("alink", ["f.p", "out.p"])):
+                for opt in ("-r", "-f", "-l", "-e", "-S", "-F", "-a", "-s", "-i", "-d", "-m", "-k"):
+                    run_one(sim, acc, prog, sc_tool(prog, tail + [opt, big], ref), "E15 %s %s with an argument of %d characters" % (prog, opt, ln), "long-argument")
+                run_one(sim, acc, prog, sc_tool(prog, [big] + tail[1:], ref, extra={"/w/" + big + ".p": ref}), "E15 %s file name of %d characters" % (prog, ln), "long-argument")
+                run_one(sim, acc, prog, sc_tool(prog, tail[:1] + [big], ref), "E15 %s target name of %d characters" % (prog, ln), "long-argument")
         acc.sample = {"space": "E15"}
     elif g == "secdecl":
         rng = Rng(case["seed"])
